@@ -13,6 +13,7 @@ RULE = ("one run = 1-8 concurrent clients issuing roundtrip calls whose argument
         "simulation adds is the path through Packet.append offsets, batching and "
         "process_packet slicing); distinct = distinct event-log digests")
 RULE += "; since the 4th session the format pool includes formats that occupy no bytes ('0I', '0s', '0H', '3x')"
+RULE += '; also a second master on the interface (25 %)'
 COMPONENTS = wl_roundtrip_components = {
     "real": ["ebpfcat.ethercat.EtherCat.roundtrip/sendloop/process_packet", "Packet"],
     "stub": ["event loop", "socket", "wire (fault-free)", "plain-memory terminals"]}
